@@ -55,6 +55,9 @@ enum Attr {
     /// `#[convert_save_load_attr(serde(skip))]` (true: `serde(skip, default)`)
     SerdeSkip(bool),
     Rename(String),
+    /// `#[convert_save_load_attr(serde(alias = "a<r>", rename = "<r>"))]`: one forwarded attribute with TWO arguments, the
+    /// second of which decides the serialised name
+    Rename2(String),
     Doc(String),
 }
 
@@ -202,7 +205,8 @@ fn gen_attrs(rng: &mut Rng, ty: &Ty, uniq: &mut usize, on_variant: bool) -> Vec<
     }
     if rng.chance(1, 4) {
         *uniq += 1;
-        a.push(Attr::Rename(format!("r{}", *uniq)));
+        // (every other rename comes as the second argument of a two-argument attribute; no extra random draw)
+        if *uniq % 2 == 0 { a.push(Attr::Rename2(format!("r{}", *uniq))); } else { a.push(Attr::Rename(format!("r{}", *uniq))); }
     }
     if rng.chance(1, 10) {
         *uniq += 1;
@@ -220,7 +224,10 @@ fn gen_fields(rng: &mut Rng, defs: &[Def], lo: usize, nparams: usize, n: usize, 
         .map(|i| {
             let ty = gen_field_ty(rng, defs, lo, nparams, nested);
             let attrs = gen_attrs(rng, &ty, uniq, false);
-            Field { name: if named { Some(format!("f{}", i)) } else { None }, ty, attrs }
+            // (some named definitions have a field literally called `data`, followed by further fields: the generated
+            //  `convert_from` receives its argument under that name)
+            let name = if named && n >= 3 && n % 3 == 0 && i == 1 { "data".to_string() } else { format!("f{}", i) };
+            Field { name: if named { Some(name) } else { None }, ty, attrs }
         })
         .collect()
 }
@@ -405,6 +412,7 @@ fn attr_enc(a: &Attr) -> String {
         Attr::SerdeSkip(false) => "F:serde(skip)".into(),
         Attr::SerdeSkip(true) => "F:serde(skip,default)".into(),
         Attr::Rename(r) => format!("F:serde(rename=\"{}\")", r),
+        Attr::Rename2(r) => format!("F:serde(alias=\"a{}\",rename=\"{}\")", r, r),
         Attr::Doc(d) => format!("O:doc=\"{}\"", d),
     }
 }
@@ -415,6 +423,7 @@ fn attr_rust(a: &Attr) -> String {
         Attr::SerdeSkip(false) => "#[convert_save_load_attr(serde(skip))]".into(),
         Attr::SerdeSkip(true) => "#[convert_save_load_attr(serde(skip, default))]".into(),
         Attr::Rename(r) => format!("#[convert_save_load_attr(serde(rename = \"{}\"))]", r),
+        Attr::Rename2(r) => format!("#[convert_save_load_attr(serde(alias = \"a{}\", rename = \"{}\"))]", r, r),
         Attr::Doc(d) => format!("#[doc = \"{}\"]", d),
     }
 }
